@@ -1,6 +1,7 @@
 (* C17 — JSON report codec and text forms of stream values round-trip.
    Only statements; proofs are `exact <lemma>` into proofs/TextProofs.v. *)
 From DS Require Import Base RepoConstants Decimal StreamValue TextForms JsonReportBytes TextProofs JsonBytesProofs.
+From DS Require JsonPackBytes Base64Proofs.
 
 (* the two regular expressions in /repo are the modelled ones (regenerated from the source on every run) *)
 Example C17_gen_regexes : quote_regex_found = true /\ tsv_regex_found = true /\
@@ -48,6 +49,14 @@ Theorem C17_pack_unpack_roundtrip : forall t, length (pt_digest t) = 32%nat -> F
   unpack_model (pack_model t) = Ok t.
 Proof. exact pack_unpack_roundtrip. Qed.
 Print Assumptions C17_pack_unpack_roundtrip.
+(* the signatures travel as base64 text inside the packed JSON (JsonPackBytes.json_pack_bytes is compared byte for byte with
+   what Pack returns): decoding the text gives back every signature, whatever its bytes and length *)
+Theorem C17_signature_base64_roundtrip : forall bs, Forall (fun b => 0 <= b < 256) bs ->
+  JsonPackBytes.b64_decode (JsonPackBytes.b64_encode bs) = Some bs.
+Proof. exact Base64Proofs.b64_roundtrip. Qed.
+Print Assumptions C17_signature_base64_roundtrip.
+Example C17_nv_base64 : JsonPackBytes.b64_encode [77; 97; 110; 255; 0] = str_bytes "TWFu/wA=".
+Proof. vm_compute. reflexivity. Qed.
 
 (* D3 (repaired): with the expression of the pinned tree (no minus sign) a negative quote does not parse back *)
 Theorem C17_quote_needs_minus_refuted : find_quote false (quote_text (mkdec (-1) 0) (mkdec 2 0) (mkdec 3 0)) = None.
